@@ -10,10 +10,10 @@ THEOREMS = "auto"
 ASSUMPTIONS = ["model of cellsToDirectedEdge / getDirectedEdgeOrigin / getDirectedEdgeDestination / "
                "isValidDirectedEdge / originToDirectedEdges over generated bit macros, tied by exact correspondence",
                "boundary coincidence and lengths (great-circle arithmetic) are evaluated on the real library, not proved"]
-NOT_PROVED = ["directedEdgeToBoundary coincidence with the reverse edge within 1e-12; edgeLength = summed great-circle length"]
+NOT_PROVED = ["directedEdgeToBoundary coincidence with the reverse edge within 1e-12 and with the points common to the two cells' boundaries; edgeLength = summed great-circle length"]
 EXPLANATION = ("validity predicate and encode/decode round trip are theorems (all 2^64 candidates); correspondence of "
                "all edge functions; evaluator: every (cell, neighbour) pair, non-neighbours, malformed edges, boundary "
-               "of each edge vs the reversed boundary of the opposite edge, lengths in the three units")
+               "of each edge vs the reversed boundary of the opposite edge and vs the points common to the boundaries of origin and destination (cells along all 30 icosahedron edges included), lengths in the three units")
 EARTH_R = 6371.007180918475
 
 
@@ -61,6 +61,16 @@ def evaluate(ctx, rng, tier, focus, budget, broken):
     viol_ = []
     nb = Neigh(ctx)
     cells = _cells(rng, tier)[: 400 * budget if tier == "quick" else 3000]
+    # cells that touch an icosahedron edge (their shared edges carry the third, face-crossing point), all resolutions
+    from props.C03 import edge_points
+    ep, _ = edge_points(ctx, rng, 5 if tier == "quick" else 40)
+    eops = []
+    for (la, ln) in ep:
+        eops.append(f"ll2c {f2bits(la)} {f2bits(ln)} {rng.choice([1, 1, 3, 5, 7, 9, 11, 13, 15, rng.randrange(16)])}")
+    for a in ctx.c(eops, tag="edgecells"):
+        if ok(a):
+            cells.append(int(a.split()[1], 16))
+    cells = list(dict.fromkeys(cells))
     nb.fetch(cells)
     ops, meta = [], []
     for h in cells:
@@ -132,6 +142,29 @@ def evaluate(ctx, rng, tier, focus, budget, broken):
             viol_.append(viol("edge boundary is not the reversed boundary of the opposite edge (1e-12 rad)",
                               [f"edgeboundary {gen.hx(edges[(a_, b_)])}", f"edgeboundary {gen.hx(edges[(b_, a_)])}"],
                               "same 2 or 3 points reversed", f"{bd} vs {rb}"))
+    # the stretch is the part of the boundary that the two cells share: the points of cellToBoundary(origin) that are
+    # also points of cellToBoundary(destination), no more and no fewer (2 corners, plus the point on an icosahedron
+    # edge when the shared edge crosses one)
+    want = sorted({c_ for pair in bds for c_ in pair})
+    cb = {}
+    for c_, a in zip(want, ctx.c([f"boundary {gen.hx(c_)}" for c_ in want], tag="eval_cb")):
+        if ok(a):
+            cb[c_] = parse_boundary(a)
+    nshared = 0
+    for (a_, b_), bd in bds.items():
+        if a_ not in cb or b_ not in cb:
+            continue
+        tol = 1e-11
+        common = [p for p in cb[a_] if any(gc_dist(p, q) < tol for q in cb[b_])]
+        nshared += 1
+        okk = len(bd) == len(common) and all(any(gc_dist(p, q) < tol for q in common) for p in bd)
+        if not okk:
+            viol_.append(viol("directedEdgeToBoundary is not the boundary stretch shared by the two cells "
+                              "(points common to cellToBoundary of origin and destination)",
+                              [f"edgeboundary {gen.hx(edges[(a_, b_)])}", f"boundary {gen.hx(a_)}", f"boundary {gen.hx(b_)}"],
+                              f"{len(common)} points {common}", f"{len(bd)} points {bd}"))
+            if len(viol_) >= 20:
+                break
     # validity predicate on arbitrary candidates
     cand = []
     for h in cells[:300]:
@@ -150,7 +183,7 @@ def evaluate(ctx, rng, tier, focus, budget, broken):
             if len(viol_) >= 25:
                 break
     return {"evaluations": len(ops) + len(ops2) + len(ops3), "violations": viol_[:20], "distinct": ops,
-            "coverage": {"cells": len(cells), "neighbour_pairs": len(edges), "reverse_pairs_compared": nrev,
+            "coverage": {"cells": len(cells), "neighbour_pairs": len(edges), "reverse_pairs_compared": nrev, "stretch_vs_cell_boundaries": nshared,
                          "three_point_edges": sum(1 for b in bds.values() if len(b) == 3), "candidates": len(cand)},
             "samples": [{"op": ops2[i], "c_answer": out2[i][:160]} for i in (0, 3, 4)]}
 
